@@ -24,6 +24,8 @@ def main():
     head = sh('git -C /repo rev-parse --short HEAD').stdout.strip()
     for d in sorted(ST.glob('C*/change*')):
         sid = f'{d.parent.name}-{d.name[-1]}'
+        if (V / 'seeded' / sid / 'meta.json').exists() and not only and os.environ.get('COLLECT_ALL') != '1':
+            pass
         if only and sid not in only:
             continue
         log = (d / 'verify.log').read_text() if (d / 'verify.log').exists() else ''
@@ -34,6 +36,8 @@ def main():
         out.mkdir(parents=True, exist_ok=True)
         shutil.copy(d / 'patch.diff', out / 'patch.diff')
         shutil.copy(d / 'demo.py', out / 'demo.py')
+        if (d / 'patch.orig.diff').exists():
+            shutil.copy(d / 'patch.orig.diff', out / 'patch.as_written.diff')
         meta = json.load(open(d / 'meta.json'))
         r = sh(f'git -C /repo apply --check {out}/patch.diff')
         applies = r.returncode == 0
@@ -42,8 +46,11 @@ def main():
         if applies:
             sh(f'git -C /repo apply {out}/patch.diff')
             try:
-                for p in checks:
-                    rr = sh(f'python3 sa/check.py {p} --tier quick', cwd=str(V))
+                from concurrent.futures import ThreadPoolExecutor
+                # every registered quick check, run concurrently on the patched /repo; evidence files are restored afterwards (they must describe the unchanged tree)
+                with ThreadPoolExecutor(max_workers=16) as ex:
+                    results = list(ex.map(lambda p: (p, sh(f'VERIF_EVIDENCE_DIR=/tmp/seed_evidence python3 sa/check.py {p} --tier quick', cwd=str(V))), checks))
+                for p, rr in results:
                     ran.append(f'python3 sa/check.py {p} --tier quick -> exit {rr.returncode}')
                     if rr.returncode != 0:
                         rules = sorted({l.split()[1] for l in rr.stdout.splitlines() if l.strip().startswith('violated ')})
@@ -73,6 +80,8 @@ def main():
             },
             'agent_ran': meta.get('ran'),
             'checks_run_at_repo_head': head,
+            'rebased': ('the patch was rebased onto the current /repo HEAD after a later fix: commit touched the same lines; the change as the agent wrote it is patch.as_written.diff' if (d / 'patch.orig.diff').exists() else None),
+            'own_property_detects': bool(detected.get(meta.get('property', d.parent.name[:3]), {}).get('exit') == 1),
             'applied_with': 'git -C /repo apply; checks; git -C /repo checkout -- .' if applies else 'scratch copy with patch -p1 (patch predates later fix: commits)',
             'what_ran': ran,
             'detected_by': detected,
